@@ -323,16 +323,13 @@ theorem run_setExponentP_some (c : Ctx) (d : Cell) (n : Nat) (res : Cond) (xs : 
   unfold roundTailP
   simp
 
-/-- `Rounder.Round(c, d, x, flag)` for EVERY `d`, `x` (in particular `x = d`): the value-level `roundX` of the
-operand's prior value, also on the system-limit exits. -/
-theorem run_roundP (c : Ctx) (d : Cell) (x : Src) (dis : Bool) (h : Heap) :
-    run (roundP c d x dis) h = ((roundX c (x.val h) dis).2, h.set d (roundX c (x.val h) dis).1) := by
-  have hx : x.val (h.set d (x.val h)) = x.val h := by
-    rcases x.alias_cases d with rfl | hx
-    · simp
-    · simp [Src.val_set_of_ne hx]
-  unfold roundP roundX
-  simp only [run_bind, run_setDec, run_numDigitsP, run_signP, run_ite, run_pure, run_rdExp, run_rdCoeff,
+/-- the finite part of `Rounder.Round`, run right after `d.Set(x)` -/
+theorem run_roundFinP (c : Ctx) (d : Cell) (x : Src) (dis : Bool) (h : Heap) :
+    run (roundFinP c d x dis) (h.set d (x.val h)) =
+      ((roundXFin c (x.val h) dis).2, h.set d (roundXFin c (x.val h) dis).1) := by
+  have hx : x.val (h.set d (x.val h)) = x.val h := Src.val_set_val_self x d h
+  unfold roundFinP roundXFin
+  simp only [run_bind, run_numDigitsP, run_signP, run_ite, run_pure, run_rdExp, run_rdCoeff,
     run_rdNeg, run_roundTailP, Src.val_cell, Heap.set_same, Heap.set_set, hx]
   have hse : ∀ res xs, run (setExponentP c d (some (ndigits (x.val h).coeff)) res xs) (h.set d (x.val h))
       = ((setExponent c (x.val h) res xs).2, h.set d (setExponent c (x.val h) res xs).1) := by
@@ -347,6 +344,14 @@ theorem run_roundP (c : Ctx) (d : Cell) (x : Src) (dis : Bool) (h : Heap) :
                       (x.val h).neg
                       (cmpNat (2 * ((x.val h).coeff % 10 ^ (↑(ndigits (x.val h).coeff) - (c.prec : Int)).toNat))
                         (10 ^ (↑(ndigits (x.val h).coeff) - (c.prec : Int)).toNat)) = true
+
+/-- `Rounder.Round(c, d, x, flag)` for EVERY `d`, `x` (in particular `x = d`): the value-level `roundX` of the
+operand's prior value, also on the system-limit exits. -/
+theorem run_roundP (c : Ctx) (d : Cell) (x : Src) (dis : Bool) (h : Heap) :
+    run (roundP c d x dis) h = ((roundX c (x.val h) dis).2, h.set d (roundX c (x.val h) dis).1) := by
+  unfold roundP roundX
+  simp only [run_bind, run_setDec, run_rdForm, run_ite, run_pure, Src.val_set_val_self, run_roundFinP]
+  bcases hf : ((x.val h).form != Form.finite) = true
 
 /-! ## NaN handling -/
 
